@@ -20,41 +20,25 @@ from .common import node_iterator_domain, strip_identity_wrappers
 
 
 def check(model: Model, rep: Report, tier: str):
-    duration_rule(model, rep)
-    width_rule(model, rep, "C04.D3")
-    front_rule(model, rep)
+    with rep.isolated():
+        duration_rule(model, rep)
+    with rep.isolated():
+        width_rule(model, rep, "C04.D3")
+    with rep.isolated():
+        front_rule(model, rep)
     from .c01 import r2
     from .common import share_rule
-    share_rule(rep, model, r2, "C04.D5", "end_time == start_time + duration in every definition (shared C01.R2): the span of D2 is computed from end times, and "
-                                         "'everything FOLLOWED_BY the block starts after all of it has ended' reads them", only_rules={"C01.R2"})
+    with rep.isolated():
+        share_rule(rep, model, r2, "C04.D5", "end_time == start_time + duration in every definition (shared C01.R2): the span of D2 is computed from end times, and "
+                                             "'everything FOLLOWED_BY the block starts after all of it has ended' reads them", only_rules={"C01.R2"})
 
 
 def front_rule(model: Model, rep: Report):
     """D4: the duration a user reads from a circuit object is the span of its structure, on every path (no stored value in between)."""
     rep.rule("C04.D4", "DeclarativeCircuit.duration (what the user reads) == the duration of its circuit structure, evaluated on every call: one return, "
                        "no stored or defaulted value")
-    K = model.cls("DeclarativeCircuit")
-    f = K.properties.get("duration")
-    if f is None:
-        raise AnalysisError("DeclarativeCircuit.duration not found")
-    ev = Evaluator(model, inline_methods=False, opaque={"CircuitCompositeOperation.duration", "ICircuitCompositeOperation.duration", "IDurationComponent.duration"})
-    paths = [p for p in PathEnumerator(ev).function_paths(f, self_cls=K) if p.exit in ("return", "raise")]
-    s = sym(f.self_name)
-    structure = [("attr", s, "_structure")]
-    cs = K.properties.get("circuit_structure")
-    if cs is not None:
-        structure.append(Evaluator(model, inline_methods=False).value_of(cs, self_cls=K))
-        structure.append(("attr", s, "circuit_structure"))
-    want = [("attr", x, "duration") for x in structure]
-    bad = []
-    for p in paths:
-        if p.exit != "return" or p.value not in want:
-            bad.append(f"{p.exit} {show(p.value) if p.value is not None else ''} if {show(p.cond)}")
-        stores = [e for e in p.events if e.kind == "store"]
-        if stores:
-            bad.append("stores " + ", ".join(show(e.term)[:60] for e in stores if e.term is not None))
-    rep.check(not bad and len(paths) >= 1, "C04.D4", "DeclarativeCircuit.duration", f.loc, found="; ".join(bad) or show(paths[0].value), required="return self._structure.duration (always)",
-              what="the duration read from a circuit is not always the current span of its structure: " + "; ".join(bad), detail="front")
+    from .common import front_delegation
+    front_delegation(model, rep, "C04.D4", "DeclarativeCircuit", "duration", "duration", False, "the duration read from a circuit is not always the current span of its structure")
 
 
 def resolve_extremes(path: Path, value: Term) -> Tuple[Term, List[Summary], List[str]]:
